@@ -313,3 +313,32 @@ def scan_assumptions(gen_text):
     out['assumed_specs'] = sorted(set(re.findall(r'assume_specification\s*(?:<[^>]*>)?\s*\[\s*([^\]]+?)\s*\]', gen_text)))
     out['admitted_lemmas'] = sorted(set(re.findall(r'proof fn\s+(\w+)[^{]*\{\s*admit\(\);', gen_text, flags=re.S)))
     return out
+
+
+def run_breaks(unit, gen_file, workdir):
+    """thorough tier: deliberate breaks of the generated text must make Verus fail (vacuity / weak-contract guard)"""
+    cat = json.load(open(os.path.join(VERIF, 'units', 'breaks.json'))).get(unit, [])
+    text = open(gen_file).read()
+    out = []
+    for i, (old, new) in enumerate(cat):
+        r = {'break': old[:70].replace('\n', ' '), 'status': None}
+        if old not in text:
+            r['status'] = 'anchor_lost'
+            out.append(r)
+            continue
+        p = os.path.join(workdir, '%s_break%d.rs' % (unit, i))
+        with open(p, 'w') as f:
+            f.write(text.replace(old, new, 1))
+        try:
+            pr = subprocess.run(['verus', p, '--output-json'], cwd=workdir, capture_output=True, text=True, timeout=600)
+            js = json.loads(pr.stdout) if pr.stdout.strip().startswith('{') else None
+        except Exception:
+            js = None
+        if js is None:
+            r['status'] = 'rejected'          # does not compile / unsupported: not informative
+        else:
+            vr = js.get('verification-results', {})
+            r['status'] = 'caught' if vr.get('errors', 0) > 0 or vr.get('encountered-error') else 'SURVIVED'
+        os.remove(p)
+        out.append(r)
+    return out
